@@ -1301,11 +1301,18 @@ class Function(Ring):
     def logdet(self):
         return Function.pushforward(algopy.logdet, [self])
 
-    def transpose(self):
+    def transpose(self, axes=None):
+        # (the signature of numpy.transpose / UTPM.transpose; only the
+        # default is implemented there, too)
+        if axes is not None:
+            raise NotImplementedError('should implement that')
         return Function.pushforward(algopy.transpose, [self])
 
     def conjugate(self):
         return Function.pushforward(algopy.conjugate, [self])
+
+    def conj(self):
+        return self.conjugate()
 
     def tril(self, k=0):
         return Function.pushforward(algopy.tril, [self], Fkwargs={'k': k})
